@@ -16,10 +16,24 @@ the recurrence so that the reference has 2**k - 1, 2**k, 2**k + 1 values (k = 7.
 module under test - with the default count, an explicit count just beyond the length, and 'repeat' observed beyond
 the length.  All listed lengths are executed; the lengths in between are not (that part is directed, not
 exhaustive over lengths).
+
+How the values are taken out of the iterator is part of the space: the object returned by one backoff_iter() call
+is consumed by next(), a for loop that is left early, an itertools.islice() chunk and a second for loop in turn
+(each of them calls iter() on it again), and after it ended it is asked again (it must stay ended: exactly count
+values).  Once per lattice point a twin iterator made with equal arguments (all given by keyword, defaults left
+out) while the first one is still unconsumed must give the same first values afterwards, an unrelated iterator
+pulled in between must not be disturbed nor disturb, and backoff() is called a third time with every argument
+positional.
+
+Counts too large to be consumed (part "huge counts": 2**31, 2**32, 2**53, 2**63, 2**64 each with its neighbours,
+sys.maxsize + 8, 10**20, 10**100, 10**400) are valid integers >= 0: the first values are examined like those of
+'repeat' (the iteration must not end or raise within the observed head, which reaches past the arrival at stop);
+backoff() is not called for them (the list could not be built).
 """
 import itertools
 import math
 import signal
+import sys
 
 from mc import inputs
 
@@ -37,8 +51,34 @@ MAX_HANGS = 2                       # per worker process: after that many hangs 
 _hangs = 0
 STEP_CAP = 200000                   # reference: give up looking for stop after this many growth steps
 LONG_CONST_RANGE = (16, 50000)      # integer constants of boltons.iterutils in this range become sequence lengths
+HEAD_ONLY_ABOVE = 10 ** 6            # integer counts above this are observed like 'repeat' (first values only)
+BIG_HEAD = 12                       # values observed per point in the part "huge counts" (its stops are reached
+                                    # after at most 7 values)
+BIG_KS = (0, 1, 2, 3, 5)
+OTHER_ARGS = (3, 1000, 'repeat', 3, False)      # the unrelated iterator pulled in between
+OTHER_VALUES = [3.0, 9.0, 27.0]
+END = object()
 JITTER_MAX_LEN = 64                # jitter part: default-count points with a longer reference are left to the
                                     # no-jitter part (the draws of a script only differ in the first 5 positions)
+
+
+def big_counts():
+    """Integers >= 0 nobody can consume: around the usual machine thresholds (C int, unsigned, float mantissa,
+    ssize_t / sys.maxsize, 64 bit), sys.maxsize plus a few growth steps, and beyond the double range."""
+    out = []
+    for n in (2 ** 31, 2 ** 32, 2 ** 53, sys.maxsize + 1, 2 ** 63, 2 ** 64):
+        for c in (n - 1, n, n + 1):
+            if c not in out:
+                out.append(c)
+    for c in (sys.maxsize + 8, 10 ** 20, 10 ** 100, 10 ** 400):
+        if c not in out:
+            out.append(c)
+    return tuple(out)
+
+
+def head_only(count):
+    """Counts whose values cannot all be taken: 'repeat' and integers above HEAD_ONLY_ABOVE."""
+    return count == 'repeat' or (count is not None and count > HEAD_ONLY_ABOVE)
 
 
 def up(x):
@@ -55,7 +95,7 @@ def down(x):
 def tier_bounds(tier):
     if tier == 'quick':
         return {
-            'starts': (1.0, 0.0, 0.5, 0.25, 1.5, 3.0, 10.0, 1e6, 1e-9, 5e-324),
+            'starts': (1.0, 0.0, 0.5, 0.25, 1.5, 3.0, 10.0, 1e6, 1e-9, 5e-324, 1e300),
             'factors_default_count': (2.0, 10.0, 3.0, 1.5, 1.1, math.e),
             'factors_explicit_count_only': (1.0, ONE_P),
             'k_max': 40,
@@ -71,10 +111,12 @@ def tier_bounds(tier):
             'long_factors': (1.01, 1.001, 1.0001),
             'long_lengths': tuple(2 ** k for k in range(7, 15)) + (1000, 10000),
             'long_big': ((1.0, 1.0001, 2 ** 16),),
+            'big_starts': (1.0, 0.0, 0.25, 3.0, 5e-324, 1e300),
+            'big_factors': (2.0, 10.0, 1.5, 1.0, ONE_P),
         }
     return {
         'starts': (1.0, 0.0, 0.5, 0.25, 1.5, 3.0, 10.0, 1e6, 1e-9, 5e-324, 2.0, 7.0, 0.1, 1e3, 1e-300,
-                   1e-320),
+                   1e-320, 1e300, 1e307),
         'factors_default_count': (2.0, 10.0, 3.0, 1.5, 1.1, math.e, 1.25, 4.0, 7.0, math.pi),
         'factors_explicit_count_only': (1.0, ONE_P),
         'k_max': 80,
@@ -91,6 +133,8 @@ def tier_bounds(tier):
         'long_lengths': tuple(2 ** k for k in range(5, 15)) + (100, 1000, 3000, 10000, 20000),
         'long_big': tuple((s, f, n) for f in (1.01, 1.001, 1.0001, 1.005) for s in (1.0, 0.0, 0.001)
                           for n in (2 ** 15, 2 ** 16, 100000, 2 ** 17)),
+        'big_starts': (1.0, 0.0, 0.5, 0.25, 1.5, 3.0, 10.0, 1e6, 1e-9, 5e-324),
+        'big_factors': (2.0, 10.0, 3.0, 1.5, 1.1, math.e, 1.0, ONE_P),
     }
 
 
@@ -174,8 +218,8 @@ MENU = {
     'start': (1, 0, 3, -1, -5e-324),
     'stop': (10, 1, down(1.0), 0, -1),
     'factor': (2, 1, 1.0 - 2.0 ** -53, 0.5, 0, -2),
-    'jitter': (False, 0.5, 1, -1, True, 1.5, -ONE_P, 2, -2),
-    'count': (None, 0, 1, 5, 'repeat', -1, -5),
+    'jitter': (False, 0.5, 1, -1, True, 1.5, -ONE_P, 2, -2, 0.0),
+    'count': (None, 0, 1, 5, 'repeat', -1, -5, sys.maxsize + 1, 10 ** 20, -10 ** 20),
 }
 
 
@@ -318,10 +362,75 @@ class Seam:
         return False
 
 
-def observe(seam, fn, p, draws, pull):
+def consume_next(it, pull, vals):
+    """Up to `pull` values by explicit next() calls."""
+    for _ in range(pull):
+        try:
+            vals.append(next(it))
+        except StopIteration:
+            return 'done'
+    return 'more'
+
+
+def consume_mixed(it, pull, vals, tick=None):
+    """Up to `pull` values out of ONE iterator object the way callers do: next() for the first value, a for loop
+    left after two more, an itertools.islice() chunk of two, a for loop for the rest.  Every one of these calls
+    iter(it) again; for an iterator that is the same sequence as pure next() calls.  `tick` is called between
+    the phases."""
+    if pull < 1:
+        return 'more'
+    try:
+        vals.append(next(it))
+    except StopIteration:
+        return 'done'
+    if tick:
+        tick()
+    if len(vals) >= pull:
+        return 'more'
+    upto = min(pull, 3)
+    for v in it:
+        vals.append(v)
+        if len(vals) >= upto:
+            break
+    else:
+        return 'done'
+    if tick:
+        tick()
+    if len(vals) >= pull:
+        return 'more'
+    want = min(2, pull - len(vals))
+    chunk = list(itertools.islice(it, want))
+    vals.extend(chunk)
+    if len(chunk) < want:
+        return 'done'
+    if len(vals) >= pull:
+        return 'more'
+    for v in it:
+        vals.append(v)
+        if len(vals) >= pull:
+            return 'more'
+    return 'done'
+
+
+def call_forms(p):
+    """The same call written differently: (all keywords with the defaults count=None / jitter=False left out,
+    all positional)."""
+    kw = {'start': p['start'], 'stop': p['stop'], 'factor': p['factor']}
+    if p['count'] is not None:
+        kw['count'] = p['count']
+    if p['jitter'] is not False:
+        kw['jitter'] = p['jitter']
+    return kw, (p['start'], p['stop'], p['count'], p['factor'], p['jitter'])
+
+
+def observe(seam, fn, p, draws, pull, mode='mixed', extras=False):
     """Run the real function.  Returns (status, values): status 'done' (ended), 'more' (still yielding after
-    `pull` values), 'exc:<Type>', 'hang'.  backoff_iter is driven by explicit next() calls."""
+    `pull` values), 'exc:<Type>', 'hang'.  backoff_iter is consumed by next() / for / islice in turn
+    (mode 'mixed') or by next() only (mode 'next').  Findings of the protocol steps (asked again after the end,
+    twin iterator, unrelated iterator, other call form; the last three only with `extras`) are left in
+    seam.notes as (what, expected, observed)."""
     seam.sr.load(draws)
+    seam.notes = notes = []
     kw = {'count': p['count'], 'factor': p['factor'], 'jitter': p['jitter']}
     vals = []
     try:
@@ -336,24 +445,65 @@ def observe(seam, fn, p, draws, pull):
                     del ret[:1]
                 seam.sr.load(draws)
                 second = list(seam.iu.backoff(p['start'], p['stop'], **kw))
+                if second == first and extras:
+                    seam.sr.load(draws)
+                    try:
+                        third = list(seam.iu.backoff(*call_forms(p)[1]))
+                    except Exception as e:
+                        third = 'raised ' + type(e).__name__
+                    if third != first:
+                        notes.append(('all arguments positional: result differs from the call with keywords',
+                                      first[:8], third[:8]))
                 signal.setitimer(signal.ITIMER_VIRTUAL, 0)
                 if second != first:
                     return 'second-call-differs', [first, second]
                 return 'done', first
             it = seam.iu.backoff_iter(p['start'], p['stop'], **kw)
-            status = 'more'
-            for _ in range(pull):
+            twin = other = tick = None
+            other_vals = []
+            if extras:
                 try:
-                    vals.append(next(it))
-                except StopIteration:
-                    status = 'done'
-                    break
-            signal.setitimer(signal.ITIMER_VIRTUAL, 0)
+                    twin = seam.iu.backoff_iter(**call_forms(p)[0])
+                    if not p['jitter']:         # an unrelated live iterator (it never draws: no jitter)
+                        other = seam.iu.backoff_iter(*OTHER_ARGS)
+                        tick = lambda: len(other_vals) < 3 and other_vals.append(next(other))
+                        tick()
+                except Exception as e:
+                    notes.append(('making a second iterator raised ' + type(e).__name__, 'an iterator', repr(e)[:200]))
+                    twin = other = tick = None
+            if mode == 'mixed':
+                status = consume_mixed(it, pull, vals, tick)
+            else:
+                status = consume_next(it, pull, vals)
             if status == 'more':
                 try:
                     it.close()
                 except Exception:
                     pass
+            else:
+                # exactly count values: an iterator that ended stays ended, however it is asked
+                again = list(itertools.islice(it, 3))
+                nxt = next(it, END)
+                if again or nxt is not END:
+                    notes.append(('iterator produces values again after it ended', 'nothing after the %d values'
+                                  % len(vals), again + ([] if nxt is END else [nxt])))
+            if twin is not None:
+                try:
+                    if other is not None:
+                        while len(other_vals) < 3:
+                            tick()
+                        if other_vals != OTHER_VALUES:
+                            notes.append(('an unrelated iterator pulled in between gives wrong values',
+                                          OTHER_VALUES, other_vals))
+                    seam.sr.load(draws)
+                    tv = []
+                    consume_next(twin, min(3, pull), tv)
+                    if tv != vals[:len(tv)] or len(tv) < min(3, len(vals)):
+                        notes.append(('twin iterator made with equal arguments (keywords, defaults omitted) before '
+                                      'the first was consumed gives different first values', vals[:3], tv))
+                except Exception as e:
+                    notes.append(('twin / unrelated iterator raised ' + type(e).__name__, vals[:3], repr(e)[:200]))
+            signal.setitimer(signal.ITIMER_VIRTUAL, 0)
             return status, vals
         finally:
             signal.setitimer(signal.ITIMER_VIRTUAL, 0)
@@ -372,7 +522,7 @@ def pull_for(p, ref_steps, repeat_items):
     c = p['count']
     if invalid_kinds(p):
         return 3
-    if c == 'repeat':
+    if head_only(c):
         return repeat_items
     if c is None:
         return 4 * (ref_steps or 0) + 1000
@@ -401,8 +551,9 @@ def judge(p, status, vals, repeat_items):
     ref = Reference(start, stop, factor)
     sshape = 'start>0' if start else ('start=0, stop<1' if stop < 1 else 'start=0, stop>=1')
     if status.startswith('exc:'):
-        return [('raised %s (valid parameters, %s)' % (status[4:], 'default count' if count is None else 'count given'),
-                 'values', [status, shown])]
+        return [('raised %s (valid parameters, %s)' % (status[4:], 'default count' if count is None else
+                                                       'count given'),
+                 'values', [status, 'after yielding', shown])]
     # -- how many
     if count == 'repeat':
         if status == 'done':
@@ -413,6 +564,10 @@ def judge(p, status, vals, repeat_items):
                         '%s values)' % ref.steps_to_stop(), 'still yielding after %d values' % len(vals)))
         elif not j and (not vals or vals[-1] != stop):
             out.append(('default count, %s: last value is not stop' % sshape, stop, shown))
+    elif head_only(count):
+        if status == 'done':
+            out.append(('explicit count too large to consume: iteration ended early', 'count = %d values' % count,
+                        'ended after %d values' % len(vals)))
     else:
         if status == 'more' or len(vals) != count:
             out.append(('explicit count: number of values', count,
@@ -446,7 +601,7 @@ def judge(p, status, vals, repeat_items):
     return out
 
 
-def check_case(seam, p, draws, repeat_items=REPEAT_ITEMS):
+def check_case(seam, p, draws, repeat_items=REPEAT_ITEMS, extras=True):
     """Judge one lattice point on backoff_iter and (where it applies) backoff.  Returns
     [(signature, expected, observed)]."""
     res = []
@@ -454,19 +609,37 @@ def check_case(seam, p, draws, repeat_items=REPEAT_ITEMS):
     if p['count'] is None and not invalid_kinds(p):
         ref_steps = Reference(p['start'], p['stop'], p['factor']).steps_to_stop()
     pull = pull_for(p, ref_steps, repeat_items)
-    status, vals = observe(seam, 'backoff_iter', p, draws, pull)
-    for what, exp, obs in judge(p, status, vals, repeat_items):
+    status, vals = observe(seam, 'backoff_iter', p, draws, pull, 'mixed', extras)
+    notes = seam.notes
+    complaints = judge(p, status, vals, repeat_items)
+    if complaints and status != 'hang' and _hangs < MAX_HANGS:
+        # is it the sequence, or the way it was taken out?  the same call consumed by next() only
+        status_n, vals_n = observe(seam, 'backoff_iter', p, draws, pull, 'next', False)
+        if (status_n, vals_n) != (status, vals):
+            complaints_n = judge(p, status_n, vals_n, repeat_items)
+            if complaints_n:
+                complaints = complaints_n
+            else:
+                shown = vals if len(vals) <= 12 else vals[:6] + ['...'] + vals[-5:]
+                complaints = [('values differ when one iterator is consumed by next(), for loops and islice() in '
+                               'turn (by next() alone they are right)', vals_n[:12], [status, shown])]
+    if complaints:      # the twin is compared with the values of the first iterator: pointless when those are wrong
+        notes = [n for n in notes if not n[0].startswith('twin iterator made')]
+    for what, exp, obs in complaints + notes:
         res.append(('C15|fn:backoff_iter|' + what, exp, obs))
     # backoff(): 'repeat' is not part of its contract; never ask for a list the iterator showed to be endless
-    if p['count'] == 'repeat' or status in ('more', 'hang'):
+    # or that is too large to build
+    if head_only(p['count']) or status in ('more', 'hang'):
         return res
-    status2, vals2 = observe(seam, 'backoff', p, draws, pull)
+    status2, vals2 = observe(seam, 'backoff', p, draws, pull, extras=extras)
     if status2 == 'second-call-differs':
         res.append(('C15|fn:backoff|second call with equal arguments differs after the caller changed the first result',
                     vals2[0][:8], vals2[1][:8]))
     elif (status2, vals2) != (status, vals):       # same outcome -> already judged above
         for what, exp, obs in judge(p, status2, vals2, repeat_items):
             res.append(('C15|fn:backoff|' + what, exp, obs))
+    for what, exp, obs in seam.notes:
+        res.append(('C15|fn:backoff|' + what, exp, obs))
     return res
 
 
@@ -476,7 +649,7 @@ def scripts_for(p, ref_steps, repeat_items):
     if not p['jitter'] or invalid_kinds(p):
         return [()]
     c = p['count']
-    n = repeat_items if c == 'repeat' else (ref_steps or SCRIPT_POSITIONS) if c is None else c
+    n = repeat_items if head_only(c) else (ref_steps or SCRIPT_POSITIONS) if c is None else c
     return list(itertools.product(DRAWS, repeat=min(SCRIPT_POSITIONS, n)))
 
 
@@ -491,13 +664,14 @@ def run_point(seam, t, p, repeat_items):
     if p['count'] is None and not invalid_kinds(p):
         ref_steps = Reference(p['start'], p['stop'], p['factor']).steps_to_stop()
     nt = nontrivial(p)
-    for draws in scripts_for(p, ref_steps, repeat_items):
+    for n, draws in enumerate(scripts_for(p, ref_steps, repeat_items)):
         if _hangs >= MAX_HANGS:
             t.add('skipped_after_hangs', 1)
             continue
-        case = dict(p, draws=list(draws), repeat_items=repeat_items)
+        # the twin / unrelated iterator / call form steps: once per point (with its first draw script)
+        case = dict(p, draws=list(draws), repeat_items=repeat_items, extras=not n)
         t.count(nontrivial=nt, sample=case)
-        for sig, exp, obs in check_case(seam, p, draws, repeat_items):
+        for sig, exp, obs in check_case(seam, p, draws, repeat_items, extras=not n):
             t.bad(sig, case, exp, obs)
 
 
@@ -544,6 +718,17 @@ def shard_long(arg):
             if kind == 'on':        # an explicit count / 'repeat' that runs past the arrival at stop
                 run_point(seam, t, dict(p, count=L + 3), REPEAT_ITEMS)
                 run_point(seam, t, dict(p, count='repeat'), L + 3)
+    return t
+
+
+def shard_big(arg):
+    start, factor, counts, ks = arg
+    t = inputs.Tally()
+    with Seam() as seam:
+        for stop in stops_for(start, factor, ks):
+            for count in counts:
+                p = {'start': start, 'stop': stop, 'count': count, 'factor': factor, 'jitter': False}
+                run_point(seam, t, p, BIG_HEAD)
     return t
 
 
@@ -597,6 +782,12 @@ def run(ctx):
              "values, default count; at the stop giving exactly L also count=L+3 and 'repeat' observed for L+3 values; "
              "directed: every listed length is run, lengths in between are not"))
 
+    bigs = [(start, factor, big_counts(), BIG_KS) for start in B['big_starts'] for factor in B['big_factors']]
+    totals.append(inputs.run_shards(
+        ctx, shard_big, bigs, part='huge counts: start x factor x stop x count beyond what can be consumed',
+        rule='jitter=False; integer counts around 2**31, 2**32, 2**53, sys.maxsize, 2**63, 2**64 and 10**20, 10**100, '
+             '10**400; the first %d values are examined (stop is reached within 7), backoff() is not called' % BIG_HEAD))
+
     menu = [(a, b) for a in MENU['start'] for b in MENU['stop']]
     totals.append(inputs.run_shards(
         ctx, shard_menu, menu, part='edge menu: valid and invalid values of every parameter',
@@ -614,6 +805,7 @@ def run(ctx):
     cov['bounds'] = {
         'tier': ctx.tier,
         'lattice': {k: list(v) if isinstance(v, tuple) else v for k, v in B.items()},
+        'starts_near_the_top_of_the_double_range': 'a start of 1e300: start*factor**k overflows after a few steps; stops that are not finite are left out',
         'stops': 'for k = 0..k_max (jitter part: k in jitter_k): start*factor**k by repeated multiplication and by '
                  'pow, each with its two 1-ulp neighbours; plus 0.5, 1, 1+2**-52; for start = 0 the grid is built '
                  'from 1 and 0.25, 0.1, 5e-324, 0 are added; stops below start are kept (ValueError clause)',
@@ -626,7 +818,17 @@ def run(ctx):
         'jitter_part_default_count_max_reference_length': JITTER_MAX_LEN,
         'repeat_items_examined': REPEAT_ITEMS,
         'edge_menu': {k: list(v) for k, v in MENU.items()},
-        'functions': ['backoff_iter (driven by next())', "backoff (all counts except 'repeat')"],
+        'huge_counts': {'counts': [str(c) if c > 2 ** 70 else c for c in big_counts()], 'k': list(BIG_KS),
+                        'values_examined': BIG_HEAD, 'observed_like_repeat_above': HEAD_ONLY_ABOVE},
+        'consumption': 'one backoff_iter object: next(), for loop left early, islice chunk, for loop, asked again '
+                       'after the end; on a disagreement the call is repeated with next() alone to tell the two apart',
+        'once_per_point': ['twin iterator (keywords, defaults omitted) created before and read after the first',
+                           'unrelated iterator backoff_iter%r pulled before, in between and after (no-jitter points)'
+                           % (OTHER_ARGS,),
+                           'backoff() a third time with all arguments positional'],
+        'functions': ['backoff_iter (next / for / islice on one object)',
+                      "backoff (all counts except 'repeat' and those above %d; called twice, the first result "
+                      "changed by the caller in between)" % HEAD_ONLY_ABOVE],
     }
     ctx.assumptions += [
         'exhaustive over the float lattice only; reals between lattice points are not examined',
@@ -639,6 +841,10 @@ def run(ctx):
         "count='repeat' is observed for its first %d values (8 in the jitter and menu parts)" % REPEAT_ITEMS,
         'with jitter and the default count only termination and the per-position bounds are demanded '
         '(the statement fixes the last value only for the un-jittered sequence)',
+        'integer counts above %d cannot be consumed: their first %d values (8 in the menu) are examined, the '
+        'iteration must not end or raise there; backoff() is not called with them' % (HEAD_ONLY_ABOVE, BIG_HEAD),
+        'the ways of consuming an iterator are the listed ones (next, for + break, islice, for, again after the end) '
+        'at fixed split positions 1 / 3 / 5; send(), throw(), copy and pickling are not examined',
         'long sequences (more than k_max values) are examined only at the listed lengths (powers of two, 1000, 10000, '
         'integer constants of the module, each with its neighbours) for the listed slow factors and starts',
         'a call that does not return within %gs of CPU time is reported as a hang (never reached otherwise)' % HANG_S,
@@ -652,6 +858,7 @@ def replay(ctx, data):
     with Seam() as seam:
         if not in_scope(p):
             return msgs
-        for sig, exp, obs in check_case(seam, p, tuple(case.get('draws', ())), case.get('repeat_items', REPEAT_ITEMS)):
+        for sig, exp, obs in check_case(seam, p, tuple(case.get('draws', ())), case.get('repeat_items', REPEAT_ITEMS),
+                                        extras=case.get('extras', True)):
             msgs.append('%s params=%r expected=%r observed=%r' % (sig, p, exp, obs))
     return msgs
